@@ -1,0 +1,16 @@
+//go:build verif
+
+// Contracts for package termincommittee, read by /verif/govc (comment-only: no declarations, no effect on any build).
+
+package termincommittee
+
+//@ func calcLeaderOfViewAndCommittee
+//@   props C18 C12
+//@   requires len(committeeMembers) >= 1
+//@   ensures [rotation] result == committeeMembers[view % len(committeeMembers)].Id
+//@   ensures [rotation.nil] isnil(result) == isnil(committeeMembers[view % len(committeeMembers)].Id)
+
+//@ func isLeaderOfViewForThisCommittee
+//@   props C18
+//@   requires len(committeeMembers) >= 1
+//@   ensures [iff] (result == nil) == (leaderCandidateId == committeeMembers[v % len(committeeMembers)].Id)
